@@ -402,7 +402,8 @@ def shapes(ctx: Ctx) -> None:
     cl = base.methods.get("convert_list")
     ctx.require(cl is not None, "APIIntEnum.convert_list missing")
     assert cl is not None
-    ctx.ob("C14.R3", cl, "convert_list: skip on ValueError only", _try_shape(cl, returns_none=False), "convert_list must append cls(x) and skip exactly on ValueError")
+    okl, whyl = _convert_list_shape(ctx, cl)
+    ctx.ob("C14.R3", cl, "convert_list: skip on ValueError only", okl, f"convert_list must append cls(x) for every element and skip exactly the elements that raise ValueError: {whyl}")
 
     mb = ctx.repo.cls("APIModelBase")
     fp = mb.methods.get("from_pb")
@@ -509,3 +510,60 @@ def _try_shape(fn: Func, returns_none: bool) -> bool:
     if returns_none:
         return len(h) == 1 and isinstance(h[0], ast.Return) and (h[0].value is None or norm(h[0].value) == "None") and isinstance(t.body[0], ast.Return)
     return len(h) == 1 and isinstance(h[0], (ast.Pass, ast.Continue))
+
+
+def _convert_list_shape(ctx: Ctx, fn: Func) -> tuple[bool, str]:
+    """Per element: cls(x) is evaluated under a handler for exactly ValueError that lies INSIDE the loop (the
+    handler continues with the next element), the converted value is appended to the returned list on the
+    normal path, and nothing else can end the loop early."""
+    from ..cfg import cfg_of, node_calls
+    from ..guard import walk
+
+    g = cfg_of(ctx, fn)
+    params = [p for p in fn.param_names() if p not in ("cls", "self")]
+    loops = [n for n in own_nodes(fn.node) if isinstance(n, ast.For)]
+    if len(loops) != 1 or not params or norm(loops[0].iter) != params[0] or not isinstance(loops[0].target, ast.Name):
+        return False, "expected one loop over the argument"
+    lp = loops[0]
+    x = lp.target.id
+    heads = [n for n in g.reachable() if n.kind == "for" and n.ast is lp]
+    conv = [n for n in g.reachable() if any(norm(c.func) == "cls" and [norm(a) for a in c.args] == [x] for c in node_calls(n))]
+    if len(heads) != 1 or len(conv) != 1:
+        return False, f"{len(conv)} conversion site(s) cls({x})"
+    head, cn = heads[0], conv[0]
+    exc_t = [s_ for l, s_ in cn.succ if l == "exc"]
+    if not exc_t or exc_t[0].kind != "dispatch":
+        return False, "cls(x) is not inside a try"
+    hs = [s_ for l, s_ in exc_t[0].succ if l == "handler"]
+    if len(hs) != 1 or hs[0].handler_type.split(".")[-1] != "ValueError":
+        return False, f"handlers {[h.handler_type for h in hs]}"
+    # the handler goes on with the next element
+    after_handler = walk(g, {}, lambda n: None, start=hs[0])
+    if head not in after_handler:
+        return False, "the ValueError handler leaves the loop: elements after an unknown number are lost"
+    # nothing in the handler itself appends or returns
+    hbody = {y for t in own_nodes(fn.node) if isinstance(t, ast.Try) for h in t.handlers for st in h.body for y in ast.walk(st)}
+    if any(isinstance(y, (ast.Return, ast.Break, ast.Raise)) for y in hbody) or any(isinstance(y, ast.Call) and norm(y.func).split(".")[-1] == "append" for y in hbody):
+        return False, "the handler does more than skip"
+    # normal path: the converted value is appended to the returned list before the next iteration
+    rets = [r for r in own_nodes(fn.node) if isinstance(r, ast.Return) and r.value is not None]
+    if len(rets) != 1 or not isinstance(rets[0].value, ast.Name):
+        return False, "expected one return of the result list"
+    out = rets[0].value.id
+    from ..astutil import bound_name
+
+    call = [c for c in node_calls(cn) if norm(c.func) == "cls"][0]
+    val = bound_name(fn.node, call)
+    apps = [n for n in g.reachable() if any(isinstance(c.func, ast.Attribute) and c.func.attr == "append" and norm(c.func.value) == out and c.args and (c.args[0] is call or (val is not None and norm(c.args[0]) == val)) for c in node_calls(n))]
+    if len(apps) != 1:
+        return False, f"{len(apps)} append(s) of the converted value to {out}"
+    # from the conversion's normal exit the append is unavoidable before the loop head
+    nxt = [s_ for l, s_ in cn.succ if l != "exc"]
+    if apps[0] is not cn and not (nxt and nxt[0] is apps[0]):
+        avoid = walk(g, {}, lambda n: None, start=nxt[0] if nxt else cn, blocked={apps[0]})
+        if head in avoid or g.exit in avoid:
+            return False, "a converted value can be dropped"
+    if any(isinstance(y, (ast.Break, ast.Return)) for b in lp.body for y in ast.walk(b)):
+        return False, "the loop can end early"
+    return True, "ok"
+
